@@ -53,8 +53,22 @@ pub enum Edit {
     Purge,
 }
 
+/// Changes made on the expiring replica itself after its last sync (so the working set still
+/// reflects the earlier status when expire_tasks runs).
+#[derive(Clone, Debug, PartialEq, Eq, Hash, Serialize, Deserialize)]
+pub enum LocalEdit {
+    /// status deleted, modified more than 180 days ago (e.g. an import)
+    DeleteOld,
+    /// status deleted, modified less than 180 days ago
+    DeleteRecent,
+    /// status pending, modified now
+    Reopen,
+}
+
 #[derive(Clone, Debug, PartialEq, Eq, Hash, Serialize, Deserialize)]
 pub struct Case {
+    #[serde(default)]
+    pub local: Vec<(u16, LocalEdit)>,
     /// offsets (seconds, >= 60) used by the boundary cells
     pub near: u32,
     pub far: u32,
@@ -115,8 +129,13 @@ pub fn strategy() -> BoxedStrategy<Case> {
         any::<bool>(),
         any::<bool>(),
         any::<bool>(),
+        proptest::collection::vec(
+            (any::<u16>(), prop_oneof![3 => Just(LocalEdit::DeleteOld), 1 => Just(LocalEdit::DeleteRecent), 1 => Just(LocalEdit::Reopen)]),
+            0..8,
+        ),
     )
-        .prop_map(|(near, far, edits, b_first, third, twice)| Case {
+        .prop_map(|(near, far, edits, b_first, third, twice, local)| Case {
+            local,
             near,
             far,
             edits,
@@ -201,6 +220,48 @@ pub fn check_case(c: &Case) -> CheckResult {
         w.sync(r)
             .map_err(|e| Failure::new("sync-error", format!("initial sync failed: {e}")))?;
     }
+    // changes on the expiring replica itself, not followed by a sync or a working-set rebuild
+    let mut locally_edited: BTreeSet<Uuid> = BTreeSet::new();
+    {
+        let cur = w.reps[0].tasks();
+        let mut ops = vec![];
+        for (ci, e) in &c.local {
+            let i = ((*ci as usize) * cells.len()) >> 16;
+            let uuid = cell_uuid(i);
+            if !locally_edited.insert(uuid) {
+                continue;
+            }
+            let (st, md) = match e {
+                LocalEdit::DeleteOld => ("deleted", now - d180 - c.far as i64),
+                LocalEdit::DeleteRecent => ("deleted", now - d180 + c.near as i64),
+                LocalEdit::Reopen => ("pending", now),
+            };
+            for (k, v) in [("status", st.to_string()), ("modified", md.to_string())] {
+                ops.push(Operation::Update {
+                    uuid,
+                    property: k.to_string(),
+                    old_value: cur.0[&uuid].get(k).cloned(),
+                    value: Some(v),
+                    timestamp: Utc::now(),
+                });
+            }
+            dont_care.remove(&uuid);
+            if *e == LocalEdit::DeleteOld {
+                expect_expired.insert(uuid);
+                let was = cur.0[&uuid].get("status").map(|s| s.as_str());
+                if matches!(was, Some("pending") | Some("recurring")) {
+                    rep.class("deleted-long-ago-but-still-in-the-working-set");
+                }
+            } else {
+                expect_expired.remove(&uuid);
+            }
+        }
+        if !ops.is_empty() {
+            w.reps[0]
+                .commit(ops)
+                .map_err(|e| Failure::new("commit-error", format!("local edit commit failed: {e}")))?;
+        }
+    }
     let before = w.reps[0].tasks();
 
     // concurrent edits on replica 1
@@ -223,7 +284,7 @@ pub fn check_case(c: &Case) -> CheckResult {
                 ((*ci as usize) * cells.len()) >> 16
             };
             let uuid = cell_uuid(i);
-            if edited.contains_key(&uuid) {
+            if edited.contains_key(&uuid) || locally_edited.contains(&uuid) {
                 continue;
             }
             edited.insert(uuid, e);
@@ -416,7 +477,7 @@ pub fn run(e: &Engine) {
     let cells = grid(60, 86_400).len();
     e.campaign(
         "grid",
-        &format!("every case holds the full grid of {cells} tasks: status {{pending, completed, deleted, recurring, unknown, absent}} x modified {{absent, 4 non-numeric, 4 out-of-range, future, now-180d -/+ near/1h/far, 0, negative, 3 odd syntaxes}} with generated near (60 s-2 h) and far (1 d-460 d) offsets, plus generated concurrent edits (property update, re-open, outright delete) on a second replica, both sync orders, optional third replica and second expiration; non-trivial = at least one task was purged and a purged task was edited concurrently elsewhere"),
+        &format!("every case holds the full grid of {cells} tasks: status {{pending, completed, deleted, recurring, unknown, absent}} x modified {{absent, 4 non-numeric, 4 out-of-range, future, now-180d -/+ near/1h/far, 0, negative, 3 odd syntaxes}} with generated near (60 s-2 h) and far (1 d-460 d) offsets, plus generated changes on the expiring replica itself after its last sync (deleted long ago / deleted recently / re-opened; the working set is not rebuilt in between) and generated concurrent edits (property update, re-open, outright delete) on a second replica, both sync orders, optional third replica and second expiration; non-trivial = at least one task was purged and a purged task was edited concurrently elsewhere"),
         e.tier.pick(5000, 150_000),
         strategy,
         |c| serde_json::to_value(c).unwrap(),
